@@ -483,20 +483,19 @@ func evaluateCollectionExpression(expression *grammar.CollectionExpression, datu
 				if expression.NameBinding.Default != "" {
 					innerOpt = append(innerOpt, WithLocalVariable(expression.NameBinding.Default, nil, key.Interface()))
 				}
-				if expression.NameBinding.Index != "" {
-					innerOpt = append(innerOpt, WithLocalVariable(expression.NameBinding.Index, nil, key.Interface()))
-				}
+				// The value alias is pushed before the key so that its path
+				// is resolved in the enclosing scope: a key named like the
+				// first part of the collection's selector must not capture it.
 				if expression.NameBinding.Value != "" {
 					path := make([]string, 0, len(expression.Selector.Path)+1)
 					path = append(path, expression.Selector.Path...)
 					path = append(path, key.Interface().(string))
 					innerOpt = append(innerOpt, WithLocalVariable(expression.NameBinding.Value, path, nil))
 				}
-			} else {
 				if expression.NameBinding.Index != "" {
-					innerOpt = append(innerOpt, WithLocalVariable(expression.NameBinding.Index, nil, i))
+					innerOpt = append(innerOpt, WithLocalVariable(expression.NameBinding.Index, nil, key.Interface()))
 				}
-
+			} else {
 				pathValue := make([]string, 0, len(expression.Selector.Path)+1)
 				pathValue = append(pathValue, expression.Selector.Path...)
 				pathValue = append(pathValue, fmt.Sprintf("%d", i))
@@ -505,6 +504,10 @@ func evaluateCollectionExpression(expression *grammar.CollectionExpression, datu
 				}
 				if expression.NameBinding.Value != "" {
 					innerOpt = append(innerOpt, WithLocalVariable(expression.NameBinding.Value, pathValue, nil))
+				}
+				// pushed after the value alias, see the map case above
+				if expression.NameBinding.Index != "" {
+					innerOpt = append(innerOpt, WithLocalVariable(expression.NameBinding.Index, nil, i))
 				}
 			}
 
